@@ -80,7 +80,9 @@ class DiffOperator(operator.Operator, abc.ABC):
 
     @property
     def parameters_order1(self):
-        return set(param for var in self.order1 for param in self.order1[var])
+        params = set(param for var in self.order1 for param in self.order1[var])
+        # parameters that only appear in second-order coefficient maps need their first derivative too
+        return params | set(param for pair in self.order2 for param in self.order2[pair])
 
     @property
     def parameters_order2(self):
